@@ -494,7 +494,12 @@ class Lib:
         return A.ew(lambda cc, x, y: ite(cc, x, y), _arr(c, interp), a if sv.is_scalar(norm(a)) else _arr(a, interp),
                     b if sv.is_scalar(norm(b)) else _arr(b, interp))
 
-    def np_arange(self, interp, *args):
+    def np_arange(self, interp, *args, dtype=None):
+        if dtype is not None:
+            # np.arange(n, dtype=<integer type>): the integers themselves (A2: machine integers are mathematical integers)
+            dn = A.norm_dtype(dtype)
+            if dn != "int" or any(isinstance(norm(x), Fraction) or (isinstance(norm(x), SV) and norm(x).is_real) for x in args):
+                raise EngineError("np.arange with a non-integer dtype")
         if len(args) == 1:
             lo, hi = 0, norm(args[0])
         else:
